@@ -191,6 +191,12 @@ def runC18 (op : String) (j : Json) : R Json := do
     -- `_try_make_number` on each string
     let ss ← fld j "strings" >>= asList asStr
     pure (Json.mkObj [("values", jList jNum (ss.map tryMakeNumber))])
+  | "uniclass" =>
+    -- the tables of `pyNorm` over ALL non-ASCII code points: [code point, digit value] and the white space
+    let cps := (List.range 1114112).filter fun n => 128 ≤ n && !(55296 ≤ n && n ≤ 57343)
+    let digits := cps.filterMap fun n => (uniDigitVal (Char.ofNat n)).map fun d => Json.arr #[jNat n, jNat d]
+    let spaces := cps.filter fun n => isUniSpace (Char.ofNat n)
+    pure (Json.mkObj [("digits", Json.arr digits.toArray), ("spaces", jNats spaces)])
   | "csv" =>
     -- the csv transport alone: records -> text -> records; the real writer's text through the model reader
     let rows ← fld j "rows" >>= asList (asList asStr)
